@@ -254,5 +254,97 @@ theorem ok_of_leaves
     exact saddle_ok (ok_of_leaves hcsr hbcsr hdense a h.1.1.1.1) (ok_of_leaves hcsr hbcsr hdense b h.1.1.1.2)
       (ok_of_leaves hcsr hbcsr hdense d h.1.1.2) h.1.2 h.2
 
+/-! ### the `|alpha| < eps` early-out: every member returns `y` itself -/
+
+end MetaMat
+
+theorem slice_append_slice (y : Array Rat) (n1 n2 : Nat) (hy : y.size = n1 + n2) :
+    slice y 0 n1 ++ slice y n1 n2 = y := by
+  unfold slice
+  rw [Nat.zero_add, Array.extract_append_extract]
+  have h1 : min 0 n1 = 0 := Nat.zero_min n1
+  have h2 : max n1 (n1 + n2) = n1 + n2 := Nat.max_eq_right (Nat.le_add_right n1 n2)
+  rw [h1, h2]
+  exact Array.extract_eq_self_of_le (by omega)
+
+/-- for a scaling factor below eps the member returns `y` (values; with `r` aliasing `y`, `r` is left as it is) -/
+def TinySpec (f : MetaOp Rat) (nOut nIn : Nat) : Prop :=
+  ∀ (al : Rat) (x y r : Array Rat) (ali : Bool), |al| < epsQ → r.size = nOut → y.size = nOut → x.size = nIn →
+    (ali = true → r = y) → f (some al) x y r ali = some y
+
+theorem chain_tiny {F R : MetaOp Rat} {nOut n1 n2 : Nat} (hF : TinySpec F nOut n1) (hR : TinySpec R nOut n2) :
+    TinySpec (chain n1 n2 F R) nOut (n1 + n2) := by
+  intro al x y r ali h1 h2 h3 h4 h5
+  have e1 := hF al (slice x 0 n1) y r ali h1 h2 h3 (slice_size x 0 n1 (by omega)) h5
+  have e2 := hR al (slice x n1 n2) y y true h1 h3 h3 (slice_size x n1 n2 (by omega)) (fun _ => rfl)
+  simp [chain, e1, e2]
+
+theorem split_tiny {F R : MetaOp Rat} {n1 n2 nIn : Nat} (hF : TinySpec F n1 nIn) (hR : TinySpec R n2 nIn) :
+    TinySpec (split n1 n2 F R) (n1 + n2) nIn := by
+  intro al x y r ali h1 h2 h3 h4 h5
+  have e1 := hF al x (slice y 0 n1) (slice r 0 n1) ali h1 (slice_size r 0 n1 (by omega)) (slice_size y 0 n1 (by omega)) h4
+    (fun h => by rw [h5 h])
+  have e2 := hR al x (slice y n1 n2) (slice r n1 n2) ali h1 (slice_size r n1 n2 (by omega))
+    (slice_size y n1 n2 (by omega)) h4 (fun h => by rw [h5 h])
+  simp [split, e1, e2, slice_append_slice y n1 n2 h3]
+
+theorem onFirst_tiny {F : MetaOp Rat} {nOut n k : Nat} (hF : TinySpec F nOut n) : TinySpec (onFirst n F) nOut (n + k) := by
+  intro al x y r ali h1 h2 h3 h4 h5
+  exact hF al (slice x 0 n) y r ali h1 h2 h3 (slice_size x 0 n (by omega)) h5
+
+theorem onRest_tiny {F : MetaOp Rat} {nOut off n : Nat} (hF : TinySpec F nOut n) :
+    TinySpec (onRest off n F) nOut (off + n) := by
+  intro al x y r ali h1 h2 h3 h4 h5
+  exact hF al (slice x off n) y r ali h1 h2 h3 (slice_size x off n (by omega)) h5
+
+namespace MetaMat
+
+def TinyOk (M : MetaMat Rat) : Prop :=
+  TinySpec (M.goQ false) M.rows M.cols ∧ TinySpec (M.goQ true) M.cols M.rows
+
+theorem tiny_of_leaves
+    (hcsr : ∀ A : Csr Rat, (MetaMat.csr A).TinyOk)
+    (hbcsr : ∀ A : Bcsr Rat, (MetaMat.bcsr A).TinyOk)
+    (hdense : ∀ A : Dense Rat, 0 < A.rows → 0 < A.cols → (MetaMat.dense A).TinyOk) :
+    ∀ M : MetaMat Rat, M.wf = true → M.TinyOk
+  | .csr A, _ => hcsr A
+  | .bcsr A, _ => hbcsr A
+  | .dense A, h => by
+    simp only [wf, Bool.and_eq_true, decide_eq_true_eq] at h
+    exact hdense A h.1.2 h.2
+  | .row f r, h => by
+    simp only [wf, Bool.and_eq_true, beq_iff_eq] at h
+    have hf := tiny_of_leaves hcsr hbcsr hdense f h.1.1
+    have hr := tiny_of_leaves hcsr hbcsr hdense r h.1.2
+    have e := h.2
+    have g1 := chain_tiny hf.1 (by rw [e]; exact hr.1)
+    have g2 := split_tiny hf.2 (by rw [e]; exact hr.2)
+    exact ⟨g1, g2⟩
+  | .col f r, h => by
+    simp only [wf, Bool.and_eq_true, beq_iff_eq] at h
+    have hf := tiny_of_leaves hcsr hbcsr hdense f h.1.1
+    have hr := tiny_of_leaves hcsr hbcsr hdense r h.1.2
+    have e := h.2
+    have g1 := split_tiny hf.1 (by rw [e]; exact hr.1)
+    have g2 := chain_tiny hf.2 (by rw [e]; exact hr.2)
+    exact ⟨g1, g2⟩
+  | .diag f r, h => by
+    simp only [wf, Bool.and_eq_true] at h
+    have hf := tiny_of_leaves hcsr hbcsr hdense f h.1
+    have hr := tiny_of_leaves hcsr hbcsr hdense r h.2
+    have g1 := split_tiny (onFirst_tiny (k := r.cols) hf.1) (onRest_tiny (off := f.cols) hr.1)
+    have g2 := split_tiny (onFirst_tiny (k := r.rows) hf.2) (onRest_tiny (off := f.rows) hr.2)
+    exact ⟨g1, g2⟩
+  | .saddle a b d, h => by
+    simp only [wf, Bool.and_eq_true, beq_iff_eq] at h
+    have ha := tiny_of_leaves hcsr hbcsr hdense a h.1.1.1.1
+    have hb := tiny_of_leaves hcsr hbcsr hdense b h.1.1.1.2
+    have hd := tiny_of_leaves hcsr hbcsr hdense d h.1.1.2
+    have er := h.1.2
+    have ec := h.2
+    have g1 := split_tiny (chain_tiny ha.1 (by rw [er]; exact hb.1)) (onFirst_tiny (k := b.cols) (by rw [ec]; exact hd.1))
+    have g2 := split_tiny (chain_tiny ha.2 (by rw [ec]; exact hd.2)) (onFirst_tiny (k := d.rows) (by rw [er]; exact hb.2))
+    exact ⟨g1, g2⟩
+
 end MetaMat
 end FeatModel.LA
